@@ -5,10 +5,6 @@ type nat =
 | O
 | S of nat
 
-val fst : ('a1 * 'a2) -> 'a1
-
-val snd : ('a1 * 'a2) -> 'a2
-
 val length : 'a1 list -> nat
 
 val app : 'a1 list -> 'a1 list -> 'a1 list
@@ -18,22 +14,36 @@ type comparison =
 | Lt
 | Gt
 
-val compOpp : comparison -> comparison
-
 val add : nat -> nat -> nat
 
-val sub : nat -> nat -> nat
+val mul : nat -> nat -> nat
 
 val eqb : bool -> bool -> bool
 
 module Nat :
  sig
   val eqb : nat -> nat -> bool
-
-  val leb : nat -> nat -> bool
-
-  val ltb : nat -> nat -> bool
  end
+
+val nth_error : 'a1 list -> nat -> 'a1 option
+
+val last : 'a1 list -> 'a1 -> 'a1
+
+val rev : 'a1 list -> 'a1 list
+
+val map : ('a1 -> 'a2) -> 'a1 list -> 'a2 list
+
+val flat_map : ('a1 -> 'a2 list) -> 'a1 list -> 'a2 list
+
+val existsb : ('a1 -> bool) -> 'a1 list -> bool
+
+val forallb : ('a1 -> bool) -> 'a1 list -> bool
+
+val filter : ('a1 -> bool) -> 'a1 list -> 'a1 list
+
+val seq : nat -> nat -> nat list
+
+val repeat : 'a1 -> nat -> 'a1 list
 
 type positive =
 | XI of positive
@@ -44,20 +54,7 @@ type n =
 | N0
 | Npos of positive
 
-type z =
-| Z0
-| Zpos of positive
-| Zneg of positive
-
 module Pos :
- sig
-  type mask =
-  | IsNul
-  | IsPos of positive
-  | IsNeg
- end
-
-module Coq_Pos :
  sig
   val succ : positive -> positive
 
@@ -65,110 +62,22 @@ module Coq_Pos :
 
   val add_carry : positive -> positive -> positive
 
-  val pred_double : positive -> positive
-
-  type mask = Pos.mask =
-  | IsNul
-  | IsPos of positive
-  | IsNeg
-
-  val succ_double_mask : mask -> mask
-
-  val double_mask : mask -> mask
-
-  val double_pred_mask : positive -> mask
-
-  val sub_mask : positive -> positive -> mask
-
-  val sub_mask_carry : positive -> positive -> mask
-
-  val mul : positive -> positive -> positive
-
-  val size : positive -> positive
-
   val compare_cont : comparison -> positive -> positive -> comparison
 
   val compare : positive -> positive -> comparison
 
   val eqb : positive -> positive -> bool
-
-  val iter_op : ('a1 -> 'a1 -> 'a1) -> positive -> 'a1 -> 'a1
-
-  val to_nat : positive -> nat
  end
 
 module N :
  sig
-  val succ_double : n -> n
-
-  val double : n -> n
-
   val add : n -> n -> n
-
-  val sub : n -> n -> n
-
-  val mul : n -> n -> n
 
   val compare : n -> n -> comparison
 
   val eqb : n -> n -> bool
 
   val leb : n -> n -> bool
-
-  val ltb : n -> n -> bool
-
-  val log2 : n -> n
-
-  val pos_div_eucl : positive -> n -> n * n
-
-  val div_eucl : n -> n -> n * n
-
-  val div : n -> n -> n
-
-  val modulo : n -> n -> n
-
-  val to_nat : n -> nat
- end
-
-val rev : 'a1 list -> 'a1 list
-
-val concat : 'a1 list list -> 'a1 list
-
-val map : ('a1 -> 'a2) -> 'a1 list -> 'a2 list
-
-val flat_map : ('a1 -> 'a2 list) -> 'a1 list -> 'a2 list
-
-val forallb : ('a1 -> bool) -> 'a1 list -> bool
-
-val firstn : nat -> 'a1 list -> 'a1 list
-
-val skipn : nat -> 'a1 list -> 'a1 list
-
-val repeat : 'a1 -> nat -> 'a1 list
-
-module Z :
- sig
-  val double : z -> z
-
-  val succ_double : z -> z
-
-  val pred_double : z -> z
-
-  val pos_sub : positive -> positive -> z
-
-  val add : z -> z -> z
-
-  val opp : z -> z
-
-  val mul : z -> z -> z
-
-  val compare : z -> z -> comparison
-
-  val leb : z -> z -> bool
-
-  val eqb : z -> z -> bool
-
-  val of_N : n -> z
  end
 
 type ascii =
@@ -184,192 +93,205 @@ val eqb1 : string -> string -> bool
 
 type bytes = n list
 
-val sp : n
-
-val zero : n
-
 val bytes_eqb : bytes -> bytes -> bool
 
-val rune_error : n
+type node =
+| File of bytes
+| Dir of bytes * node list
 
-val cont : n -> bool
+type path = bytes list
 
-val seq_size : n -> nat
+val walk_node : bool -> path -> node -> path list
 
-val second_ok : n -> n -> bool
+val walk : bool -> path -> node list -> path list
 
-val chunks : bytes -> (n * bytes) list
+val walk_node_unfixed : bool -> path -> node -> path list * bool
 
-val runes : bytes -> n list
+val walk_unfixed : bool -> path -> node list -> path list
 
-val rune_count : bytes -> nat
+type acceptance =
+| Accept
+| AsJson
+| Skip
 
-val encode_rune : n -> bytes
+val dot : n
 
-val encode : n list -> bytes
+val slash : n
 
-type seg =
-| SLit of bytes
-| SAlpha of string * nat
-| SNum of string * nat
-| SStr of string * nat
-| SRaw of string
-| SItoa of string
-| SCustom of string * string
-| SUnknown of string
+val base : bytes -> bytes
 
-type cut = { c_lo : nat; c_hi : nat; c_field : string; c_conv : string list;
-             c_const : bytes option }
+val ext : bytes -> bytes
 
-val mkcut : nat -> nat -> string -> string list -> cut
+val lower_byte : n -> n
 
-val mkconst : string -> bytes -> cut
+val lower : bytes -> bytes
 
-type indexing =
-| IRune
-| IByte
+val lookup : bytes -> (bytes * acceptance) list -> acceptance -> acceptance
 
-type layout = { l_name : string; l_ix : indexing; l_segs : seg list;
-                l_cuts : cut list }
+val accept_with :
+  (bytes * acceptance) list -> acceptance -> bytes -> acceptance
 
-type value =
-| VS of bytes
-| VI of z
+val spec_table : (bytes * acceptance) list
 
-type recval = (string * value) list
+val spec_accept : bytes -> acceptance
 
-val lookup : recval -> string -> value option
+type outcome =
+| PSkip
+| PErr
+| POk of n
 
-val gets : recval -> string -> bytes
+type wst =
+| WIdle
+| WGot of n
+| WParsing of n
+| WHolding of n
+| WExitOk
+| WExitErr
 
-val geti : recval -> string -> z
+type mst =
+| MRun
+| MAdding of n
+| MExitOk
+| MExitErr
 
-val spaces : nat -> bytes
+type st = { queue : n list; walker_done : bool; ws : wst list; mg : mst;
+            merged : n list; paths_done : bool; parse_done : bool }
 
-val zeros : nat -> bytes
+type label =
+| LHand of nat
+| LStart of nat
+| LParse of nat
+| LDeliver of nat
+| LAdd
+| LWalkerDone
+| LWalkerCancel
+| LPathsCancel
+| LWorkerExit of nat
+| LWorkerCancel of nat
+| LParseCancel
+| LMergerExit
 
-val is_space : n -> bool
+val set_nth : nat -> 'a1 -> 'a1 list -> 'a1 list
 
-val drop_space : (n * bytes) list -> (n * bytes) list
+val w_exited : wst -> bool
 
-val trim : bytes -> bytes
+val w_err : wst -> bool
 
-val rune_prefix : nat -> bytes -> bytes
+val m_err : mst -> bool
 
-val alphaField : bytes -> nat -> bytes
+val m_exited : mst -> bool
 
-val stringField : bytes -> nat -> bytes
+val gcancel : st -> bool
 
-val digits_fuel : nat -> n -> bytes -> bytes
+val set_w : nat -> wst -> st -> st
 
-val digits : n -> bytes
+val after_parse : (n -> outcome) -> n -> wst
 
-val itoa : z -> bytes
+val fire : bool -> (n -> outcome) -> (n -> bool) -> label -> st -> st option
 
-val numericField : z -> nat -> bytes
+val run :
+  bool -> (n -> outcome) -> (n -> bool) -> label list -> st -> st option
 
-val is_digit : n -> bool
+val terminal : st -> bool
 
-val digits_val : bytes -> z -> z
+type event =
+| EStart of n
+| EDone of n
 
-val max_int64 : z
+val obs : label -> st -> event option
 
-val min_int64 : z
+val trace_of :
+  bool -> (n -> outcome) -> (n -> bool) -> label list -> st -> event list
 
-val atoi : bytes -> z
+val init : nat -> n list -> st
 
-val atoi_opt : bytes -> z option
+type result =
+| RErr
+| ROk of n list
 
-val parseNumField : bytes -> z
+val result_of : st -> result
 
-val aUTOENROLL : bytes
+val wweight : wst -> nat
 
-val eNR : bytes
+val mweight : mst -> nat
 
-val render_custom : string -> recval -> bytes option
+val wsum : wst list -> nat
 
-val render_seg : recval -> seg -> bytes
+val b2n : bool -> nat
 
-val render : layout -> recval -> bytes
+val measure : st -> nat
 
-val units : indexing -> bytes -> bytes list
+val per_worker : nat -> (nat -> label) -> label list
 
-val sub0 : bytes list -> nat -> nat -> bytes
+val find_w : (wst -> bool) -> wst list -> nat -> nat option
 
-val two : n -> n -> n
+val is_idle : wst -> bool
 
-val valid_date : bytes -> bool
+val is_got : n -> wst -> bool
 
-val valid_time : bytes -> bool
+val is_parsing : n -> wst -> bool
 
-val validateSettlementDate : bytes -> bytes
+val assoc : (n * outcome) list -> n -> outcome
 
-val ten_zeros : bytes
+val event_eqb : event -> event -> bool
 
-val trimRoutingNumberLeadingZero : bytes -> bytes
+val trace_eqb : event list -> event list -> bool
 
-val conv_str : string -> bytes -> bytes option
+val count_N : n -> n list -> nat
 
-val conv_chain : string list -> bytes -> bytes option
+val same_multiset : n list -> n list -> bool
 
-val conv_value : string list -> bytes -> value option
+val first_enabled :
+  bool -> (n -> outcome) -> (n -> bool) -> label list -> st -> (label * st)
+  option
 
-val parse_cut : bytes list -> cut -> (string * value) list
+val safe_labels : nat -> label list
 
-val parse : layout -> bytes -> recval
+val saturate :
+  bool -> (n -> outcome) -> (n -> bool) -> nat -> st -> label list -> label
+  list * st
 
-val overlay : recval -> recval -> recval
+val start_path :
+  bool -> (n -> outcome) -> (n -> bool) -> nat -> n -> st -> label list ->
+  (label list * st) option
 
-val l_ADVBatchControl : layout
+val build :
+  bool -> (n -> outcome) -> (n -> bool) -> event list -> st -> label list ->
+  (label list * st) option
 
-val l_ADVEntryDetail : layout
+val result_matches : result -> n list option -> bool
 
-val l_ADVFileControl : layout
+val accept :
+  bool -> (n -> outcome) -> (n -> bool) -> nat -> n list -> event list -> n
+  list option -> bool
 
-val l_Addenda02 : layout
+val accept_trace :
+  bool -> nat -> (n * outcome) list -> n list -> event list -> n list option
+  -> bool
 
-val l_Addenda05 : layout
+type send_site = { s_func : string; s_chan : string; s_guarded : bool;
+                   s_done : string }
 
-val l_Addenda10 : layout
+val has_chan : string -> send_site list -> bool
 
-val l_Addenda11 : layout
+val shape_sel : send_site list -> bool -> bool
 
-val l_Addenda12 : layout
+val loop_complete : string list -> bool
 
-val l_Addenda13 : layout
+val acceptor_table : (bytes * acceptance) list
 
-val l_Addenda14 : layout
+val acceptor_default : acceptance
 
-val l_Addenda15 : layout
+val mergedir_sends : send_site list
 
-val l_Addenda16 : layout
+val mergedir_group_ctx : bool
 
-val l_Addenda17 : layout
+val walkdir_early_returns : string list
 
-val l_Addenda18 : layout
+val mergedir_sel : bool
 
-val l_Addenda98 : layout
+val default_accept : bytes -> acceptance
 
-val l_Addenda98Refused : layout
+val walk_as_coded : bool -> path -> node list -> path list
 
-val l_Addenda99 : layout
-
-val l_Addenda99Contested : layout
-
-val l_Addenda99Dishonored : layout
-
-val l_BatchControl : layout
-
-val l_BatchHeader : layout
-
-val l_EntryDetail : layout
-
-val l_FileControl : layout
-
-val l_FileHeader : layout
-
-val l_IATBatchHeader : layout
-
-val l_IATEntryDetail : layout
-
-val all_layouts : layout list
+val accepted_as_coded : bool -> node list -> path list
